@@ -2,7 +2,15 @@
 import numpy as np
 from common import F, rs, vs, ms, dyadic, close, call
 
+from fractions import Fraction as Fr
+
 PREF = {"": 0, "milli": 3, "micro": 6, "nano": 9}
+# dimensionally compatible ways of writing the same quantities: (pint unit, exact factor to the canonical unit I / E / nm)
+IRR_UNITS = [("mW/m**2/nm", Fr(1, 1000)), ("uW/cm**2/nm", Fr(1, 100)), ("W/m**2/um", Fr(1, 1000)), ("milliI", Fr(1, 1000)),
+             ("kW/m**2/nm", Fr(1000)), ("W/cm**2/nm", Fr(10000))]
+FLUX_UNITS = [("microE", Fr(1, 10 ** 6)), ("umol/m**2/s/nm", Fr(1, 10 ** 6)), ("milliE", Fr(1, 1000)), ("nanoE", Fr(1, 10 ** 9)),
+              ("mol/cm**2/s/nm", Fr(10000)), ("mol/m**2/s/um", Fr(1, 1000))]
+LAM_UNITS = [("um", Fr(1000)), ("m", Fr(10 ** 9)), ("angstrom", Fr(1, 10)), ("mm", Fr(10 ** 6))]
 
 
 def run(R):
@@ -10,8 +18,10 @@ def run(R):
     from dreye.api.units.pint import ureg
     n = 150 if R.tier == "quick" else 3000
     R.rule = ("wavelengths 100-2000 nm, spectra scalar / 1-D / N-D (wavelength on any axis via axis=, or last-axis "
-              "broadcasting), prefixes ''/milli/micro/nano, plain arrays and pint quantities, both directions and the "
-              "round trip; compared with the exact-rational model (exact SI constants) at rtol 1e-12. Non-trivial: "
+              "broadcasting), prefixes ''/milli/micro/nano, plain arrays, plain arrays with irr_units=/flux_units=, pint quantities "
+              "in the canonical units (I, E, nm) and in compatible other units (mW/m^2/nm, uW/cm^2/nm, W/m^2/um, kW.., microE, "
+              "umol/m^2/s/nm, mol/cm^2/s/nm, ..; wavelengths in um, m, mm, angstrom), both directions, the numeric round trip and "
+              "the returned (prefixed) quantity fed back into the inverse; the model receives the physical values in I/E/nm; compared with the exact-rational model (exact SI constants) at rtol 1e-12. Non-trivial: "
               ">=2 wavelengths with distinct values and a non-constant spectrum.")
     RT = 1e-12
     cases = []
@@ -37,13 +47,39 @@ def run(R):
             spec = dyadic(rng, 0, 8, 6, size=tuple(shp)); lamv = lam
         if shape == "nd_axis":
             units = False   # np.apply_along_axis strips quantities
-        c = dict(k=k, direction=direction, prefix=pre, shape=shape, units=units, spectrum=spec, wavelengths=lamv, axis=axis)
+        # how the quantities are written (the model receives the physical values in I / E / nm as exact rationals):
+        #   quantity in the canonical unit | quantity in a compatible other unit | plain numbers with irr_units= / flux_units=
+        rv = R.rng(3, k)
+        uname = "I" if direction == "irr2flux" else "E"
+        sunit, sfac, lunit, lfac = uname, Fr(1), "nm", Fr(1)
+        ukind = "plain"
+        if units:
+            ukind = str(rv.choice(["canonical", "compatible", "compatible"]))
+            if ukind == "compatible":
+                tab = IRR_UNITS if direction == "irr2flux" else FLUX_UNITS
+                which = int(rv.integers(3))    # spectrum, wavelengths or both in another unit
+                if which != 1:
+                    sunit, sfac = tab[int(rv.integers(len(tab)))]
+                if which != 0:
+                    lunit, lfac = LAM_UNITS[int(rv.integers(len(LAM_UNITS)))]
+        elif rv.integers(3) == 0:
+            ukind = "units-argument"
+            tab = IRR_UNITS if direction == "irr2flux" else FLUX_UNITS
+            sunit, sfac = tab[int(rv.integers(len(tab)))]
+        spec_mag = spec                                     # the numbers as written in `sunit`
+        lam_mag = lamv / float(lfac) if lfac != 1 else lamv  # the numbers as written in `lunit`
+        if sfac != 1:
+            spec = spec_mag * float(sfac)                   # the same spectrum as plain numbers in I / E (to rounding)
+        c = dict(k=k, direction=direction, prefix=pre, shape=shape, units=units, written_as=ukind, spectrum_unit=sunit, wavelength_unit=lunit,
+                 spectrum=spec_mag, wavelengths=lam_mag, axis=axis)
+        R.count("written-as:%s" % ukind)
+        if ukind in ("compatible", "units-argument"):
+            R.count("spectrum-unit:%s" % sunit); R.count("wavelength-unit:%s" % lunit)
         for key in ("direction", "prefix", "shape"):
             R.count("%s:%s" % (key, c[key]))
         R.count("units:%s" % units)
         fn = dreye.irr2flux if direction == "irr2flux" else dreye.flux2irr
         back = dreye.flux2irr if direction == "irr2flux" else dreye.irr2flux
-        uname = "I" if direction == "irr2flux" else "E"
         out_unit = (pre + "E") if direction == "irr2flux" else (pre + "spectralirradiance")
 
         other = str(rng.choice([q for q in PREF if q != pre]))
@@ -52,14 +88,20 @@ def run(R):
         def impl():
             # history: the same grid was converted with another prefix just before (results must not depend on it)
             fn(spec, lamv, prefix=other, axis=axis)
-            arg = spec * ureg(uname) if units else spec
-            lamarg = lamv * ureg("nm") if units else lamv
-            o = fn(arg, lamarg, prefix=pre, axis=axis)
+            arg = spec_mag * ureg(sunit) if units else spec_mag
+            lamarg = lam_mag * ureg(lunit) if units else lamv
+            ukw = {}
+            if ukind == "units-argument":
+                ukw = {"irr_units": sunit} if direction == "irr2flux" else {"flux_units": sunit}
+            o = fn(arg, lamarg, prefix=pre, axis=axis, **ukw)
             o_num = fn(spec, lamv, prefix=pre, axis=axis, return_units=False)
             mag = o.magnitude if hasattr(o, "magnitude") else o
             kw = {"flux_units": out_unit} if direction == "irr2flux" else {"irr_units": out_unit}
             rt = back(np.asarray(o_num), lamv, axis=axis, return_units=False, **kw)
-            return np.asarray(mag, dtype=float), np.asarray(o_num, dtype=float), np.asarray(rt, dtype=float), hasattr(o, "units")
+            # the quantity that came out (in the prefixed unit) fed back as it is: the inverse must recover the spectrum
+            rtq = back(o, lamarg).to(uname).magnitude if hasattr(o, "units") else None
+            return (np.asarray(mag, dtype=float), np.asarray(o_num, dtype=float), np.asarray(rt, dtype=float), hasattr(o, "units"),
+                    None if rtq is None else np.asarray(rtq, dtype=float))
         st, out = call(impl)
         # model: flatten to (spec_i, lam_i) pairs
         sp = np.asarray(spec, dtype=float)
@@ -71,7 +113,11 @@ def run(R):
             shp_b = [1] * sp.ndim; shp_b[axis] = nl
             L = np.broadcast_to(lam.reshape(shp_b), sp.shape).reshape(-1); S = sp.reshape(-1)
         e = PREF[pre]
-        R.driver.ask("f%d" % k, direction, 0, e, vs(S), vs(L))
+        # exact physical values of what was handed over: magnitude x unit factor
+        Lm = L / float(lfac) if lfac != 1 else L       # same floating operation as lam_mag, element by element
+        Sx = [F(v) * sfac for v in (np.asarray(spec_mag, dtype=float).reshape(-1))]
+        Lx = [F(v) * lfac for v in Lm]
+        R.driver.ask("f%d" % k, direction, 0, e, vs(Sx), vs(Lx))
         cases.append((c, st, out, S, L))
     R.driver.run()
     for c, st, out, S, L in cases:
@@ -84,7 +130,7 @@ def run(R):
         if st != "ok":
             R.failB(dict(c, impl_error=out), "conversion raised %s: %s" % (st, out), sig + ":raises:" + st)
             continue
-        mag, num, rt, has_u = out
+        mag, num, rt, has_u, rtq = out
         m = R.driver.get("f%d" % k).vec()
         bad = None
         if mag.shape != np.shape(c["spectrum"]) or num.shape != np.shape(c["spectrum"]):
@@ -97,6 +143,8 @@ def run(R):
                     bad = bad or "element %d with units: %r differs from plain-array result / law %s" % (i, float(a), rs(m[i]))
             if not np.allclose(rt.reshape(-1), S, rtol=1e-12, atol=0):
                 bad = bad or "round trip does not recover the spectrum: %s vs %s" % (rt.reshape(-1)[:4].tolist(), S[:4].tolist())
+            if rtq is not None and (rtq.shape != np.shape(c["spectrum"]) or not np.allclose(rtq.reshape(-1), S, rtol=1e-12, atol=0)):
+                bad = bad or "the returned quantity fed back into the inverse conversion does not recover the spectrum: %s vs %s" % (rtq.reshape(-1)[:4].tolist(), S[:4].tolist())
             if has_u != c["units"]:
                 bad = bad or "return_units default: has units=%s for input with units=%s" % (has_u, c["units"])
         if bad:
